@@ -491,6 +491,26 @@ def plan_C10(tier, rng):
             o = pf(exp=exp_char(r)) if isf else dict(PI_DEFAULT)
             cs.parse(ep, ty, radix_fmt(r), data, [rc[i % len(rc)]], wo=True, opts=o, place=place, tag="radix")
             cs.parse(ep, ty, radix_fmt(r), data, [rc[i % len(rc)]], wo=True, opts=o, partial=True, place=place)
+    # formats with digit separators / syntax flags: signs, separators and points in front of 3..9 digit runs that end
+    # at the guard page (the 4- and 8-byte reads), multi-digit integer paths switched on
+    Fm = fmt_tags()
+    flagged = [f for f in Fm.values() if ("sep" in f["tags"] or "syntax" in f["tags"]) and "hex" not in f["tags"]]
+    for f in (rng.sample(flagged, 40) if quick else flagged):
+        sepc = 39 if f["name"] == "sep_apostrophe" else 95
+        for _ in range(6 if quick else 30):
+            i += 1
+            ep = cs.new_ep()
+            nd = rng.choice([3, 4, 5, 7, 8, 9, 12])
+            digs_ = "".join(rng.choice("0123456789") for _ in range(nd))
+            pre = rng.choice(["", "+", "-", chr(sepc), "+" + chr(sepc), "1" + chr(sepc), "0.", "1" + chr(sepc) + "2" + chr(sepc), "."])
+            post = rng.choice(["", "", chr(sepc), ".5", "e5", chr(sepc) + "1"])
+            data = B(pre + digs_ + post)
+            place = "end" if i % 4 else "start"
+            for ty in ("u64", "i32", "f64", "f32"):
+                isf = ty in ("f32", "f64")
+                o = opts_for_fmt(f) if isf else {"nmd": False}
+                cs.parse(ep, ty, f["id"], data, ["rf"], wo=True, opts=o, place=place, tag="flagged-format")
+                cs.parse(ep, ty, f["id"], data, ["rf"], wo=True, opts=o, partial=True, place=place)
     models = [("MC_IntParse.tla", "MC_IntParse.cfg", 8, 900)]
     return cs, models, {"input_families": cs.tags, "configurations": cfgs, "profiles": ["release", "dbg"]}
 
@@ -654,6 +674,13 @@ def plan_C17(tier, rng):
                 o2 = wf(exp=exp_char(r))
                 cs.write(ep, F["name"], radix_fmt(r), bits, c, wo=True, opts=o2, tag="write-float-radix")
                 cs.write(ep, F["name"], radix_fmt(r), bits, c, wo=True, opts=o2, api="facade")
+    # punctuation bytes from the whole byte range: whenever the code calls the options valid, everything written is ASCII
+    for b in list(range(0, 256, 5)) + [0x7f, 0x80, 0xb7, 0xff, 0x09, 0x20]:
+        ep = cs.new_ep()
+        for o in (wf(point=b), wf(exp=b, pos=2)):
+            for x in (1.5, 1e30, -2.5e-10):
+                cs.write(ep, "f64", 0, gens.pyfloat_bits(F64, x), [cfgs[b % len(cfgs)]], wo=True, opts=o, tag="any-byte-punctuation")
+                cs.write(ep, "f64", 0, gens.pyfloat_bits(F64, x), [cfgs[b % len(cfgs)]], wo=True, opts=o, api="facade")
     return cs, [], {"input_families": cs.tags, "configurations": cfgs}
 
 
@@ -940,6 +967,17 @@ def plan_C09(tier, rng):
             for v in (lo, hi, 0, lo + 1):
                 i += 1
                 cs.write(ep, ty, f, str(v), [rc[i % len(rc)]], wo=True, buflen={"sym": "fs", "d": 0}, tag="int-bound", want_len=True)
+    for r in range(2, 37):
+        rc = radix_cfgs(r, cfgs)
+        if not rc or r == 10:
+            continue
+        for ty in ("u128", "i128", "u64", "i64"):
+            lo, hi = gens.int_range(ty)
+            ep = cs.new_ep()
+            for v in (hi, lo, hi // 3, hi - 1):
+                i += 1
+                for place in ("end", "start"):
+                    cs.write(ep, ty, radix_fmt(r), str(v), [rc[i % len(rc)]], wo=True, buflen={"sym": "fs", "d": 0}, place=place, tag="int-bound-all-radices")
     for ty in gens.INT_TYPES:
         lo, hi = gens.int_range(ty)
         ep = cs.new_ep()
@@ -1215,6 +1253,30 @@ def plan_C13(tier, rng):
             cs.parse(ep, "f64", f["id"], v, ["rf"], wo=True, opts=o, partial=True)
             vi = sepd["integer"]
             cs.parse(ep, "u64" if len(parts["integer"]) > 9 else "i32", f["id"], vi, ["rf"], wo=True, opts=dict(PI_DEFAULT), tag="legal-separators-int")
+        # grouping style (a separator every 3 digits) with 18..23 significant digits: the separators push
+        # digits across the 19-digit mantissa limit
+        def group3(txt, from_left):
+            if len(txt) < 4:
+                return txt
+            if from_left:
+                return chr(sepc).join(txt[k:k + 3] for k in range(0, len(txt), 3))
+            r_ = txt[::-1]
+            return chr(sepc).join(r_[k:k + 3] for k in range(0, len(r_), 3))[::-1]
+        for (ni, nf_) in ((1, 18), (1, 19), (1, 20), (1, 22), (2, 19), (7, 14), (12, 8), (20, 2), (21, 0), (19, 3)):
+            i += 1
+            ep = cs.new_ep()
+            ip = rng.choice("123456789") + "".join(rng.choice("0123456789") for _ in range(ni - 1))
+            fp = "".join(rng.choice("0123456789") for _ in range(nf_))
+            gi = group3(ip, False) if enabled("integer", "internal") else ip
+            gf = group3(fp, True) if enabled("fraction", "internal") else fp
+            if hexa:
+                continue
+            v = gi + ("." + gf if nf_ else "")
+            plain = ip + ("." + fp if nf_ else "")
+            for ty in ("f64", "f32"):
+                cs.parse(ep, ty, f["id"], v, ["rf"], wo=True, opts=o, tag="grouped-by-3")
+                cs.parse(ep, ty, f["id"], plain, ["rf"], wo=True, opts=o)
+            cs.parse(ep, "f64", f["id"], v + "e-7", ["rf"], wo=True, opts=o)
     return cs, [model], {"input_families": cs.tags, "configurations": ["rf"]}
 
 
